@@ -1104,7 +1104,12 @@ class HierarchicalMachine(Machine):
         if res is None:
             state_names = getattr(model, self.model_attribute)
             msg = "%sCan't trigger event '%s' from state(s) %s!" % (self.name, trigger, state_names)
-            for state_name in listify(state_names):
+            pending = list(listify(state_names))
+            while pending:
+                state_name = pending.pop(0)
+                if isinstance(state_name, list):  # parallel states nested in parallel states
+                    pending = state_name + pending
+                    continue
                 state = self.get_state(state_name)
                 ignore = state.ignore_invalid_triggers if state.ignore_invalid_triggers is not None \
                     else self.ignore_invalid_triggers
